@@ -20,6 +20,8 @@ package timer
 
 //@ func New
 //@   ensures result != nil
+// a new timer: nothing armed, an empty channel that can hold the one immediate delivery of Reset(..., 0)
+//@   ensures [C18] @ready result.tt == nil && result.ch != nil && chancap(result.ch) == 1 && chanlen(result.ch) == 0
 
 //@ func (*Timer).C
 //@   requires inv()
@@ -39,6 +41,8 @@ package timer
 //@   ensures [C18] @resetInstant t.s <= clock() && t.d == d && t.s >= old(clock())
 //@   ensures [C18] @zeroFiresNow implies(d == 0, t.tt == nil && chanlen(t.ch) == 1 && chanval(t.ch) == t.s)
 //@   ensures [C18] @neverEarly implies(d != 0, t.tt != nil && t.tt != old(t.tt) && deadline(t.tt) >= t.s + d)
+// ... and not armed later than the requested duration after the last clock reading either
+//@   ensures [C18] @notLate implies(d != 0, deadline(t.tt) <= clock() + d)
 //@   modifies *
 //@ func (*Timer).stop
 //@   ensures t.tt == nil
@@ -55,4 +59,6 @@ package timer
 //@   ensures [C18] @inv inv()
 //@   ensures [C18] @accumulates t.d == old(t.d) + d && unchanged(t.s, t.Height(), t.View())
 //@   ensures [C18] @neverEarly implies(t.tt != old(t.tt), t.tt != nil && deadline(t.tt) >= t.s + t.d)
+// a re-armed timer waits for what is left of s + d, measured from a clock reading taken in this call
+//@   ensures [C18] @notLate implies(t.tt != old(t.tt), deadline(t.tt) - clock() <= t.s + t.d - old(clock()))
 //@   modifies d, tt, $clock, $timer.deadline
